@@ -8,7 +8,7 @@ def make_case(rng, profile=None, n=None, opts=None):
     ast, r = gen.make_doc(rng, profile, n)
     o = opts if opts is not None else {'lang': rng.choice(['', 'en', 'de', 'ru', 'en-GB']), 'pack': '*',
                                        'dcls': rng.choice(['', '', 'article', 'scrartcl'])}
-    return {'src': r.src(), 'opts': o, 'multi': False, 'kind': 'sem', 'ast': ast, 'words': r.words, 'spans': r.spans}
+    return {'src': r.src(), 'opts': o, 'multi': False, 'kind': 'sem', 'ast': ast, 'words': r.words, 'spans': r.spans, 'callspans': r.callspans}
 
 def expected(case):
     """reference semantics; None if the document uses something the evaluator does not cover"""
@@ -18,7 +18,7 @@ def expected(case):
         return None
 
 def run_cases(ctx, cases):
-    slim = [{k: v for k, v in c.items() if k not in ('ast', 'words', 'spans')} for c in cases]
+    slim = [{k: v for k, v in c.items() if k not in ('ast', 'words', 'spans', 'callspans')} for c in cases]
     return ctx.pmap(t2t.run_case, slim)
 
 def out_words(txt):
